@@ -57,8 +57,19 @@ func (r *jsonResponder) respond(ctx context.Context, w http.ResponseWriter, req 
 	}
 
 	// Set status code and encode response
+	// Encode before writing the status so that a result that cannot be encoded is reported as an
+	// internal error of this request instead of a truncated 200.
+	body, err := json.Marshal(resp)
+	if err != nil {
+		body, err = json.Marshal(newEncodingFailureResponse(resp, err))
+		if err != nil {
+			http.Error(w, "Internal server error", http.StatusInternalServerError)
+			return err
+		}
+	}
+
 	w.WriteHeader(http.StatusOK)
-	if err := json.NewEncoder(w).Encode(resp); err != nil {
+	if _, err := w.Write(append(body, '\n')); err != nil {
 		return err
 	}
 
